@@ -159,3 +159,19 @@ func (w *world) signer(j int) *encryption.BLS0ChainScheme {
 
 // genuine signature of base key j on message m, as a symbolic point
 func genuine(j, m int) spoint { return spoint{{key(j), m}} }
+
+// miraclPK writes a herumi public key (hex of the compressed G2 point) in the long MIRACL wallet
+// spelling "04" + x.b + x.a + y.b + y.a (4 x 64 hex digits) that MiraclToHerumiPK accepts.
+func miraclPK(pkHex string) string {
+	var pk bls.PublicKey
+	if err := pk.DeserializeHexStr(pkHex); err != nil {
+		panic(err)
+	}
+	parts := strings.Fields(pk.GetHexString()) // "1 x.a x.b y.a y.b"
+	if len(parts) != 5 {
+		panic("unexpected G2 string: " + pk.GetHexString())
+	}
+	pad := func(s string) string { return strings.Repeat("0", 64-len(s)) + s }
+	xa, xb, ya, yb := pad(parts[1]), pad(parts[2]), pad(parts[3]), pad(parts[4])
+	return "04" + xb + xa + yb + ya
+}
